@@ -548,6 +548,8 @@ func ufSort(t string) string {
 		return sStr
 	case "bool", "Bool":
 		return sBool
+	case "Slice":
+		return sSlice
 	}
 	return sInt
 }
